@@ -716,7 +716,7 @@ func (rr *rcRun) runBSISequence(rng *rand.Rand, steps int) {
 					continue
 				}
 				if !reflect.DeepEqual(got, want) {
-					rr.fail([]string{"C14"}, fmt.Sprintf("range %s %d", o.n, p), fmt.Sprintf("Range(v %s %d) = %v, model %v (values %v)", o.n, p, got, want, vals))
+					rr.fail(bsiProps(op), fmt.Sprintf("range %s %d", o.n, p), fmt.Sprintf("Range(v %s %d) = %v, model %v (values %v)", o.n, p, got, want, vals))
 				}
 			}
 		}
@@ -734,7 +734,7 @@ func (rr *rcRun) runBSISequence(rng *rand.Rand, steps int) {
 				}
 				got := row.Columns()
 				if !(len(got) == 0 && len(want) == 0) && !reflect.DeepEqual(got, want) {
-					rr.fail([]string{"C14"}, "between", fmt.Sprintf("Between(%d,%d) = %v, model %v (values %v)", lo, hi, got, want, vals))
+					rr.fail(bsiProps(op), "between", fmt.Sprintf("Between(%d,%d) = %v, model %v (values %v)", lo, hi, got, want, vals))
 				}
 			}
 		}
@@ -834,4 +834,13 @@ func TestRcheckFragment(t *testing.T) {
 	for _, f := range res.Failures {
 		t.Logf("FAIL %v %s: %s", f.Props, f.Sig, f.What)
 	}
+}
+
+// bsiProps: a wrong range answer is a C14 failure; right after a value import it also
+// shows the import path disagreeing with Set (C28).
+func bsiProps(op string) []string {
+	if op == "importValue" {
+		return []string{"C14", "C28"}
+	}
+	return []string{"C14"}
 }
